@@ -24,7 +24,7 @@ CLAIMED = {
  "C04": dict(
    text="Wire.tla is an independent TLA+ encoder of the protocol subset (request header, 14 request layouts, message formats 0/1 with CRC32.tla); TLC enumerates abstract requests (boundary integers, empty/non-ASCII strings, null/empty bytes, 0-2 topics x 0-2 partitions x 0-2 messages, both magics) as one state each, checks header-version/message-format consistency on them and emits the bytes; afkak's encoders are run on every expressible vector and must give the same bytes, or bytes that an independent parser (itself checked against the same vectors) maps to the same request up to array order.",
    ref="DESIGN.md 6.9, 7 (C04)",
-   note="Trusted: TLC; the grammar as transcribed in Wire.tla from the protocol guide. Version negotiation (last sentence) is decided by the client-family check (ClientRouting/Negotiation) which this check calls once built; until then that sentence is not claimed. Large (>64 kB) values are exercised only in end-to-end runs.",
+   note="Trusted: TLC; the grammar as transcribed in Wire.tla from the protocol guide. Version negotiation (last sentence): Negotiation.tla enumerates, one state per scenario, what the broker does with ApiVersions (version tables with maxima 2..11, an error answer, no answer at all), which calls follow (produce, fetch, both orders, two fetches) and whether discovery is enabled, with the invariant that the expected header version is advertised and implemented and 0 when discovery fails; every scenario is run on the real KafkaClient over the simulated cluster: the version in each produce/fetch header, that the body parses under that version's layout (independent parser), that the calls return the broker's data (matching decoder) and the number of discovery requests. Large (>64 kB) values are exercised only in end-to-end runs.",
    technique="TLA+ specification of the wire grammar evaluated by TLC as test-vector generator (one state per abstract request) with invariants on the vectors; implementation encoders compared byte-for-byte"),
  "C05": dict(
    text="TLC computes, from Wire.tla, the bytes of well-formed responses of all supported APIs/versions (every error code class, boundary integers, null/empty strings and bytes, 0-2 topics/partitions/members) and of plain message sets in both formats, and from MessageSet.tla the logical content (absolute offsets) of compressed and nested wrappers; afkak's decoders are run on all of them and must return exactly the encoded values; afkak's own encode-then-decode must be the identity and give the grammar's bytes.",
@@ -87,7 +87,7 @@ CLAIMED = {
  "C17": dict(
    text="Same specification and executions as C16, judged on C17's clauses: after every event of a started, not stopping member there is a request of the join protocol outstanding, or consumers being shut down for a join, or a delayed rejoin on the clock, or the heartbeat looper running with no rejoin wanted (checked on the model state and, independently, on the observed outstanding calls and timers of the real object); every error kind on every request leads to the rejoin delay of the documented table (retry / initial / fatal backoff); errors that are not Kafka errors surface on the start Deferred.",
    ref="DESIGN.md 0.9, 6.7, 7 (C17)",
-   note="Liveness is judged as the state invariant 'never idle' plus finite executions; no temporal property is model-checked. Known finding (known_findings.json F-G1-*): a non-Kafka failure of the coordinator lookup, the join's metadata load or the leader's partition lookup is swallowed and wedges the member; the pinned tests rely on that swallowing. The retry loop inside KafkaClient._load_topic_partitions is exercised only through the real client in other families, not here."),
+   note="Liveness is judged as the state invariant 'never idle' plus finite executions; no temporal property is model-checked. Known finding (known_findings.json F-G1-*): a non-Kafka failure of the coordinator lookup, the join's metadata load or the leader's partition lookup is swallowed and wedges the member; the pinned tests rely on that swallowing. The leader's partition lookup (KafkaClient._load_topic_partitions, its own retry loop) is checked on the real client over the simulated cluster with PartsLookup.tla as scenario/expectation generator: every sequence (length <= 3, thorough 4) of metadata answers showing either requested topic in error or not; the lookup must ask again after each bad answer and complete with the partitions of the first good one."),
 }
 PENDING_REASON = "check not built yet in this round (framework under construction; see DESIGN.md section 12 for the order)"
 
